@@ -706,3 +706,132 @@ Lemma short_messages_panic_sends_nothing :
   sent_lbatches on_entries_cols_model spl_fields_model tsd_fields_model (lbatch0 spl_fields_model tsd_fields_model)
     [LcEntries {| en_lbl_short := false; en_ts := 2; en_msg := 1; en_val := 2; en_types := 2; en_bad_type := false; en_series := 1; en_bytes := 50 |}] = [].
 Proof. vm_compute. reflexivity. Qed.
+
+(* ------------------------------------------------------------------------------------------ *)
+(** * 11. The column-level span model refines the id-level model (same status for every event stream) *)
+
+Lemma exec_cops_none_iff : forall os b i nv,
+  exec_cops b os i nv = None <-> (has_idx os = true /\ (nv <= i)%nat).
+Proof.
+  induction os as [|o os IH]; intros b i nv; cbn [exec_cops has_idx existsb].
+  - split; [discriminate|intros [H _]; discriminate].
+  - unfold exec_cop. unfold cop_panics. fold (cop_idx o).
+    assert (Hp : (match o with CApp _ _ idx | CSize _ idx => idx && negb (i <? nv)%nat end) = cop_idx o && negb (i <? nv)%nat)
+      by (destruct o; reflexivity).
+    rewrite Hp. destruct (cop_idx o) eqn:Ho; cbn [andb orb].
+    + destruct (Nat.ltb_spec i nv) as [Hlt|Hge]; cbn [negb].
+      * destruct o as [t f idx|t idx]; [destruct t|]; rewrite IH; unfold has_idx; split; intros [H1 H2]; split; try assumption; lia.
+      * split; [intros _; split; [reflexivity|exact Hge]|reflexivity].
+    + destruct o as [t f idx|t idx]; [destruct t|]; rewrite IH; unfold has_idx; reflexivity.
+Qed.
+
+Lemma exec_loop_none_iff : forall os todo b i nv,
+  exec_loop b os i todo nv = None <-> (has_idx os = true /\ (0 < todo)%nat /\ (nv < i + todo)%nat).
+Proof.
+  intros os. induction todo as [|t IH]; intros b i nv; cbn [exec_loop].
+  - split; [discriminate|intros [_ [H _]]; lia].
+  - destruct (exec_cops b os i nv) as [b1|] eqn:E.
+    + rewrite IH. assert (Hn : ~ (has_idx os = true /\ (nv <= i)%nat)) by (rewrite <- exec_cops_none_iff, E; discriminate).
+      split.
+      * intros [H1 [H2 H3]]. split; [exact H1|split; lia].
+      * intros [H1 [_ H3]]. split; [exact H1|]. destruct t as [|t']; [exfalso; apply Hn; split; [exact H1|lia]|split; lia].
+    + apply exec_cops_none_iff in E as [H1 H2]. split; [intros _; split; [exact H1|split; lia]|reflexivity].
+Qed.
+
+Lemma status_e_panic : status_cls (status_of_error e_panic) = C5xx. Proof. reflexivity. Qed.
+
+Section REFINE.
+  Variables (h : handler_prog) (sf af : list string).
+  Hypothesis Hshape : handler_shape_ok h = true.
+
+  Let shape : hp_width_check h = true /\ hp_flush_resets h = true /\ has_idx (hp_once h) = false /\ has_idx (hp_loop h) = true.
+  Proof.
+    unfold handler_shape_ok in Hshape. repeat (apply andb_true_iff in Hshape as [Hshape ?]).
+    repeat split; try assumption. now apply negb_true_iff.
+  Qed.
+
+  Definition sim (st : span_st) (b : batch) : Prop := ss_size st = b_size b /\ span_st_ok st.
+
+  Lemma col_refines_id : forall evs st b w, world_ok w = true -> sim st b ->
+    col_status h sf af b evs = cls_of_parse (fst (do_parse ctx_traces w false (parse_spans st (map abs_event evs)))).
+  Proof.
+    destruct shape as [Hw [Hf [Ho Hl]]].
+    unfold parse_spans.
+    induction evs as [|ev evs IH]; intros st b w Hwo [Hsz Hst]; cbn [map col_status parse_spans_with].
+    - destruct Hst as [Hs Ha]. rewrite do_parse_cons_ok'; [|reflexivity|apply push_spans_ok; assumption]. reflexivity.
+    - destruct ev as [s| |t]; cbn [abs_event].
+      + unfold on_span_cols. rewrite Hw. cbn [andb].
+        destruct (negb ((se_tid s =? 16) && (se_sid s =? 8))%N) eqn:Hwd.
+        * (* wrong width: the handler's own error *)
+          cbn [parse_spans_with]. unfold on_span. cbn [abs_span si_tid si_sid]. rewrite Hwd. reflexivity.
+        * destruct (exec_cops b (hp_once h) 0 (se_vals s)) as [b1|] eqn:E1;
+            [|apply exec_cops_none_iff in E1 as [E1 _]; rewrite Ho in E1; discriminate].
+          destruct (Nat.ltb_spec (se_vals s) (se_keys s)) as [Hlt|Hge].
+          -- (* fewer values than keys: val[i] panics *)
+             assert (E2 : exec_loop b1 (hp_loop h) 0 (se_keys s) (se_vals s) = None)
+               by (apply exec_loop_none_iff; split; [exact Hl|split; lia]).
+             rewrite E2. cbn [parse_spans_with]. reflexivity.
+          -- destruct (exec_loop b1 (hp_loop h) 0 (se_keys s) (se_vals s)) as [b2|] eqn:E2;
+               [|apply exec_loop_none_iff in E2 as [_ [_ E2]]; lia].
+             cbn [parse_spans_with].
+             assert (Hgood : span_good (abs_span s)) by (unfold span_good; cbn [abs_span si_tid si_sid]; now apply negb_false_iff in Hwd).
+             destruct (on_span_good st (abs_span s) Hgood) as [st' [out Hon]]. rewrite Hon.
+             destruct (on_span_inv _ _ _ _ Hst Hon) as [Hst' Hout].
+             (* sizes: the once / loop statements do not touch Size in the model; b_size b2 = b_size b *)
+             assert (Hb2 : b_size b2 = b_size b).
+             { clear - E1 E2. destruct (exec_cops_counts _ _ _ _ _ E1) as [_ [_ Z1]].
+               assert (G : forall todo b i nv b', exec_loop b (hp_loop h) i todo nv = Some b' -> b_size b' = b_size b).
+               { induction todo as [|t IHt]; intros b0 i nv b' H; cbn [exec_loop] in H; [now inversion H|].
+                 destruct (exec_cops b0 (hp_loop h) i nv) as [bx|] eqn:E; [|discriminate].
+                 destruct (exec_cops_counts _ _ _ _ _ E) as [_ [_ Z]]. rewrite (IHt _ _ _ _ H). exact Z. }
+               rewrite (G _ _ _ _ _ E2). exact Z1. }
+             cbn [b_size]. rewrite Hb2.
+             destruct (on_span_size _ _ _ _ Hon) as [[-> Hs']|[p0 [-> [-> Hlt']]]]; cbn [abs_span si_bytes si_abytes] in *.
+             ++ (* no flush *)
+                assert (Hnf : (MiB <? b_size b + se_bytes s)%N = false).
+                { unfold on_span in Hon. cbn [abs_span si_tid si_sid si_bytes si_abytes ss_size] in Hon.
+                  apply negb_false_iff in Hwd. rewrite Hwd in Hon. cbn [negb] in Hon. rewrite Hsz, N.add_0_r in Hon.
+                  destruct (MiB <? b_size b + se_bytes s)%N; [inversion Hon|reflexivity]. }
+                rewrite Hnf. cbn [app]. apply IH; [exact Hwo|]. split; [|exact Hst']. cbn [b_size]. rewrite Hs', Hsz. lia.
+             ++ (* flush: the batch is pushed, both sides start again from the empty batch *)
+                assert (Hfl : (MiB <? b_size b + se_bytes s)%N = true) by (apply N.ltb_lt; rewrite <- Hsz; lia).
+                rewrite Hfl, Hf. destruct Hout as [Hout|[sp [at_ [Hout [Hs Ha]]]]]; [discriminate|].
+                inversion Hout; subst. cbn [app]. rewrite do_parse_cons_ok'; [|reflexivity|apply push_spans_ok; assumption].
+                apply IH; [exact Hwo|]. split; [reflexivity|exact span_st0_ok].
+      + reflexivity.
+      + destruct t; reflexivity.
+  Qed.
+End REFINE.
+
+Lemma on_span_cols_model_shape : handler_shape_ok on_span_cols_model = true.
+Proof. reflexivity. Qed.
+
+Lemma spans_serve_eq : forall evs st w,
+  serve tame_model spans_prog consumer_model ctx_traces w (spans_dres st evs)
+  = (end_of_parse (fst (do_parse ctx_traces w false (parse_spans st evs))), snd (do_parse ctx_traces w false (parse_spans st evs))).
+Proof.
+  intros evs st w. rewrite (serve_protocol _ _ _ _ _ (run_spans_prog _)).
+  pose proof (spans_prog_sends st evs) as H. rewrite run_spans_prog in H. cbn [fst] in H.
+  rewrite sends_of_protocol in H. now rewrite H.
+Qed.
+
+(* end to end, for a handler of the right shape that passes the column check: program + channel + consumer over the
+   abstracted stream end with everybody finished, the answer has the class computed at column level, the services
+   keep their columns, and every batch pushed on the way is rectangular *)
+Lemma span_requests_end_to_end_gen : forall h sf af cs ca,
+  handler_shape_ok h = true -> handler_ok h sf af cs ca = true -> forall evs,
+  exists r w', serve tame_model spans_prog consumer_model ctx_traces world0 (spans_dres span_st0 (map abs_event evs)) = (SAllDone r, w')
+    /\ cls_of_parse r = col_status h sf af (batch0 sf af) evs /\ world_ok w' = true
+    /\ Forall (fun b => batch_rect b = true) (sent_batches h sf af (batch0 sf af) evs).
+Proof.
+  intros h sf af cs ca Hsh Hok evs.
+  pose proof (spans_no_crash (map abs_event evs) span_st0 world0 false eq_refl span_st0_ok) as [Hnc Hw].
+  exists (fst (do_parse ctx_traces world0 false (parse_spans span_st0 (map abs_event evs)))),
+         (snd (do_parse ctx_traces world0 false (parse_spans span_st0 (map abs_event evs)))).
+  split; [|split; [|split]].
+  - rewrite spans_serve_eq. f_equal. unfold end_of_parse.
+    destruct (fst (do_parse ctx_traces world0 false (parse_spans span_st0 (map abs_event evs)))); try reflexivity. contradiction.
+  - symmetry. apply (col_refines_id h sf af Hsh evs span_st0 (batch0 sf af) world0 eq_refl). split; [reflexivity|exact span_st0_ok].
+  - exact Hw.
+  - apply (sent_batches_rect h sf af cs ca Hok). apply batch0_inv.
+Qed.
